@@ -30,7 +30,19 @@ SINKS = ["KeyFile", "Log", "ConnLog", "Event", "StatusJson", "ProvisionTag", "Ru
 # sinks in which the key value may legitimately appear
 ALLOWED = {"KeyFile"}
 
-_NS = 'ip link set lo up && mount --bind "$C12_SCRATCH/console.log" /dev/console && exec "$@"'
+# private net + mount namespace; /dev/console is a FIFO drained (append) into <scratch>/console.log -- a plain
+# file bind-mounted there would be OVERWRITTEN from offset 0 by every write_serial_console_log (it opens
+# the console with write(true) and no append), which a real console device does not do
+_NS = """ip link set lo up || exit 97
+F="$C12_SCRATCH/console.fifo"; D="$C12_SCRATCH/console.done"
+rm -f "$F" "$D"; mkfifo "$F" || exit 97
+( while [ ! -e "$D" ]; do cat "$F" >> "$C12_SCRATCH/console.log"; done ) &
+R=$!
+mount --bind "$F" /dev/console || exit 97
+"$@"; rc=$?
+touch "$D"; : > "$F"; wait $R
+umount /dev/console 2>/dev/null; rm -f "$F" "$D"
+exit $rc"""
 STRACE_SET = "mkdir,mkdirat,chown,fchown,lchown,fchownat,chmod,fchmod,fchmodat,open,openat,openat2,creat,rename,renameat,renameat2"
 
 
@@ -42,6 +54,7 @@ def guid_of(kid):
 
 
 HEXCH = "0123456789abcdef"
+DECOY0 = 1000
 NONHEX_TAIL = "0123456789ABCDEFGHJKMNPQRSTUVWXYZghjkmnpqrstuvwxyz"
 
 
@@ -54,6 +67,13 @@ def make_canaries(rng, hist):
             keys[kid] = "".join(rng.choice("0123456789ABCDEF") for _ in range(64))
         else:
             keys[kid] = "Z" + "".join(rng.choice(NONHEX_TAIL) for _ in range(63))
+    # decoys: key-like material in the bodies the agent is supposed to ignore (error answers of the key
+    # endpoint, every answer of the attestation endpoint).  They are outside the model (ids >= 1000) and
+    # must never show up anywhere.
+    npolls = sum(1 for op in hist if op[0] == "poll")
+    for j in range(npolls):
+        for kid in (DECOY0 + 2 * j, DECOY0 + 2 * j + 1):
+            keys[kid] = "".join(rng.choice("0123456789ABCDEF") for _ in range(64))
     return keys
 
 
@@ -95,14 +115,15 @@ def status_body(st):
 PAD = {"early": 0, "mid": 1500, "far": 5000}
 
 
-def key_body(k, keys, rng_variant=0):
+def key_body(k, keys, rng_variant=0, decoy=None):
     kind = k[0]
     if kind == "ok":
         doc = {"authorizationScheme": "Azure-HMAC-SHA256", "guid": guid_of(k[1]), "incarnationId": 1,
                "issued": "2024-01-01T00:00:00Z", "key": keys[k[1]]}
         return {"code": 200, "body": json.dumps(doc), "content_type": "application/json; charset=utf-8"}
     if kind == "err":
-        return {"code": 500, "body": "internal error", "content_type": "text/plain"}
+        return {"code": 500, "body": json.dumps({"error": "internal error", "key": keys.get(decoy, "")}),
+                "content_type": "application/json; charset=utf-8"}
     if kind == "malformed":
         _, kid, layout = k
         pad = "p" * PAD[layout]
@@ -116,13 +137,16 @@ def key_body(k, keys, rng_variant=0):
     raise ValueError(k)
 
 
-def driver_ops(segment, keys, variant):
+def driver_ops(segment, keys, variant, first_poll=0):
     out = []
+    j = first_poll
     for op in segment:
         if op[0] == "poll":
             _, st, k, a = op
-            out.append({"op": "poll", "status": status_body(st), "key": key_body(k, keys, variant),
-                        "attest": {"code": 200 if a == "ok" else 500, "body": ""}})
+            out.append({"op": "poll", "status": status_body(st), "key": key_body(k, keys, variant, DECOY0 + 2 * j),
+                        "attest": {"code": 200 if a == "ok" else 500, "content_type": "application/json; charset=utf-8",
+                                   "body": json.dumps({"attested": a == "ok", "key": keys.get(DECOY0 + 2 * j + 1, "")})}})
+            j += 1
         elif op[0] == "provision":
             out.append({"op": "provision", "notify": bool(op[1])})
         else:
@@ -145,10 +169,26 @@ def segments(hist):
 # ------------------------------------------------------------------------------------------
 # running one history on the real code
 # ------------------------------------------------------------------------------------------
-def run_history(ctx, binary, hist, keys, idx, strace=False, variant=0):
+def run_history(ctx, binary, hist, keys, idx, strace=False, variant=0, predir=False):
+    """run (all segments of) one history; a segment that times out says nothing about the code (a stalled
+    namespace set-up under load, ...), so the whole history is started afresh, at most twice more"""
+    for attempt in range(3):
+        root, results = _run_history_once(ctx, binary, hist, keys, idx, strace, variant, predir)
+        if not any(r.get("timeout") for r in results):
+            break
+        ctx.notes.append("history %d attempt %d timed out: %s" % (idx, attempt, [r.get("error") for r in results if r.get("timeout")][:1]))
+    return root, results
+
+
+def _run_history_once(ctx, binary, hist, keys, idx, strace, variant, predir):
     root = os.path.join(ctx.scratch, "h%04d" % idx)
     shutil.rmtree(root, ignore_errors=True)
     os.makedirs(os.path.join(root, "bin"))
+    if predir:
+        # the key directory exists already, unrestricted and owned by somebody else
+        os.makedirs(os.path.join(root, "keys"))
+        os.chmod(os.path.join(root, "keys"), 0o755)
+        os.chown(os.path.join(root, "keys"), 1000, 1000)
     exe = os.path.join(root, "bin", "c12")
     try:
         os.link(binary, exe)
@@ -158,21 +198,43 @@ def run_history(ctx, binary, hist, keys, idx, strace=False, variant=0):
     env = dict(os.environ)
     env["C12_SCRATCH"] = root
     results = []
+    first_poll = 0
     for si, seg in enumerate(segments(hist)):
         cmd = ["unshare", "-n", "-m", "sh", "-c", _NS, "sh"]
         if strace:
             cmd += ["strace", "-f", "-qq", "-o", os.path.join(root, "strace.%d.txt" % si), "-e", "trace=" + STRACE_SET]
         cmd += [exe]
-        line = json.dumps({"ops": driver_ops(seg, keys, variant)}) + "\n"
+        line = json.dumps({"ops": driver_ops(seg, keys, variant, first_poll)}) + "\n"
+        first_poll += sum(1 for op in seg if op[0] == "poll")
+        p = None
+        proc = subprocess.Popen(cmd, stdin=subprocess.PIPE, stdout=subprocess.PIPE, stderr=subprocess.PIPE, text=True, env=env,
+                                start_new_session=True)
         try:
-            p = subprocess.run(cmd, input=line, capture_output=True, text=True, timeout=240, env=env)
-            out = p.stdout.strip().split("\n")[-1] if p.stdout.strip() else ""
+            so, se = proc.communicate(line, timeout=int(os.environ.get("C12_TIMEOUT", "120")))
+            p = subprocess.CompletedProcess(cmd, proc.returncode, so, se)
+            out = so.strip().split("\n")[-1] if so.strip() else ""
             try:
                 res = json.loads(out)
             except ValueError:
-                res = {"ok": False, "error": "no result line (rc=%s): %s" % (p.returncode, (p.stderr or "")[-800:])}
+                res = {"ok": False, "error": "no result line (rc=%s): %s" % (proc.returncode, (se or "")[-800:])}
         except subprocess.TimeoutExpired:
-            res = {"ok": False, "error": "driver timeout"}
+            # say what was still alive, then kill the whole process group (wrapper, strace, driver, console reader)
+            try:
+                alive = subprocess.run(["ps", "-o", "pid,ppid,stat,wchan:20,etime,args", "-g", str(os.getpgid(proc.pid))],
+                                       capture_output=True, text=True, timeout=10).stdout[-1500:]
+            except Exception as e:  # noqa: BLE001
+                alive = "ps failed: %s" % e
+            try:
+                os.killpg(proc.pid, 9)
+            except OSError:
+                pass
+            try:
+                proc.communicate(timeout=10)
+            except Exception:  # noqa: BLE001
+                pass
+            res = {"ok": False, "error": "driver timeout; still alive: " + alive, "timeout": True}
+        if p is not None and p.stderr:
+            res["wrapper_stderr_b64"] = base64.b64encode(p.stderr.encode()).decode()
         results.append(res)
         if not res.get("ok"):
             break
@@ -221,7 +283,7 @@ def classify(rel):
         return "Log"
     if rel in ("agent_stdout.log", "agent_stderr.log"):
         return "Stdout"
-    if rel == "console.log":
+    if rel in ("console.log", "console.fifo", "console.done"):
         return "SerialConsole"
     if top == "bin" or rel.startswith("strace."):
         return None
@@ -237,7 +299,7 @@ def scan(root, results, keys, hexness):
             full = os.path.join(d, n)
             rel = os.path.relpath(full, root)
             sink = classify(rel)
-            if sink is None:
+            if sink is None or not os.path.isfile(full) or os.path.islink(full):
                 continue
             try:
                 data = open(full, "rb").read()
@@ -249,12 +311,14 @@ def scan(root, results, keys, hexness):
         for oi, r in enumerate(res.get("ops", [])):
             if "response_b64" in r:
                 blobs.append(("ClientResponse", "segment %d op %d (%s)" % (si, oi, r.get("op")), base64.b64decode(r["response_b64"])))
+        if res.get("wrapper_stderr_b64"):
+            blobs.append(("Stdout", "segment %d stderr of the process wrapper" % si, base64.b64decode(res["wrapper_stderr_b64"])))
         for ri, b in enumerate(res.get("host_received_b64", [])):
             blobs.append(("HostRequest", "segment %d request %d" % (si, ri), base64.b64decode(b)))
     observed = {s: set() for s in SINKS}
     details = []
     for kid, value in keys.items():
-        forms = encodings(value, hexness[kid])
+        forms = encodings(value, hexness.get(kid, True))
         for sink, where, data in blobs:
             for fname, f in forms.items():
                 if f and f in data:
@@ -393,9 +457,10 @@ def coq_variant(v):
     return "{| fix_hex := %s; fix_body := %s |}" % (cbool(v[0]), cbool(v[1]))
 
 
-def model_eval(ctx, variant, hists, name="cases"):
-    exprs = ["(vector (run %s %s), map sys_code (sys_trace %s %s))" % (coq_variant(variant), coq_history(h), coq_variant(variant), coq_history(h))
-             for h in hists]
+def model_eval(ctx, variant, hists, name="cases", predirs=None):
+    predirs = predirs or [False] * len(hists)
+    exprs = ["(vector (run %s %s), map sys_code (sys_trace %s %s %s))" % (coq_variant(variant), coq_history(h), coq_variant(variant), cbool(pd), coq_history(h))
+             for h, pd in zip(hists, predirs)]
     res = vplib.coq_eval(ctx, REQ, exprs, shard=25, name=name)
     out = []
     for vec, tr in res:
@@ -421,10 +486,10 @@ def trace_codes(ev):
     return out
 
 
-def prop_trace(ev):
+def prop_trace(ev, predir=False):
     """the property's second sentence on an observed syscall trace: the key directory is root-owned
     and 0700 (and nothing undid that) before anything is created in it"""
-    chowned, mode = False, None
+    chowned, mode = False, (0o755 if predir else None)
     for name, arg in ev:
         if name == "mkdir":
             chowned, mode = False, 0o755
@@ -568,12 +633,14 @@ def run(ctx):
     for i in range(n_random):
         hists.append(gen_history(rng, faults=(i % 3 != 0)))
     canaries = [make_canaries(rng, h) for h in hists]
+    predirs = [False] * (2 + len(FIXED_CASES)) + [rng.random() < 0.3 for _ in range(n_random)]
+    predirs[3] = True
     variants = [rng.randrange(3) for _ in hists]
     straced = set(range(len(FIXED_CASES) + 2)) | set(rng.sample(range(len(hists)), min(n_strace, len(hists))))
 
     # ---------------- implementation ----------------
     def one(i):
-        root, res = run_history(ctx, binary, hists[i], canaries[i], i, strace=(i in straced), variant=variants[i])
+        root, res = run_history(ctx, binary, hists[i], canaries[i], i, strace=(i in straced), variant=variants[i], predir=predirs[i])
         hexness = key_ids(hists[i])
         obs, det, nfiles = scan(root, res, canaries[i], hexness)
         tr = keydir_trace(root) if i in straced else None
@@ -600,7 +667,7 @@ def run(ctx):
     ctx.log("variant (fix_hex, fix_body) decided by the witnesses:", variant)
 
     # ---------------- model ----------------
-    model = model_eval(ctx, variant, hists)
+    model = model_eval(ctx, variant, hists, predirs=predirs)
 
     # ---------------- compare + the property on the implementation's behaviour ----------------
     known = {f.get("class") for f in vplib.known_findings("C12")}
@@ -608,7 +675,8 @@ def run(ctx):
     leaks_seen = 0
     for i, h in enumerate(hists):
         im, (mvec, mtr) = impl[i], model[i]
-        case = {"index": i, "history": hist_json(h), "keys": {str(k): v for k, v in canaries[i].items()}, "body_variant": variants[i]}
+        case = {"index": i, "history": hist_json(h), "keys": {str(k): v for k, v in canaries[i].items()}, "body_variant": variants[i],
+                "key_dir_preexists": predirs[i]}
         if not im["ok"]:
             disagreements.append({"case": case, "model": "history runs to completion", "impl": "driver error: %s" % im["error"]})
             continue
@@ -620,16 +688,16 @@ def run(ctx):
         if im["trace"] is not None:
             if trace_codes(im["trace"]) != mtr:
                 disagreements.append({"case": case, "model": mtr, "impl": trace_codes(im["trace"]), "what": "key directory syscall order"})
-            why = prop_trace(im["trace"])
+            why = prop_trace(im["trace"], predirs[i])
             if why:
                 failures.append({"case": case, "why": why, "impl": im["trace"]})
             if im["outside"]:
                 disagreements.append({"case": case, "model": "all writes stay inside the configured directories", "impl": im["outside"]})
         # the property itself: a key value occurs only in the key file (MACs are not occurrences)
         for sink in SINKS:
-            if sink in ALLOWED:
-                continue
             for kid in im["obs"][sink]:
+                if sink in ALLOWED and kid < DECOY0:
+                    continue
                 leaks_seen += 1
                 where = [d for d in im["details"] if d[0] == sink and d[1] == kid][:3]
                 failures.append({"case": dict(case, sink=sink, kid=kid), "impl": where,
@@ -675,6 +743,7 @@ def run(ctx):
             "malformed_key_bodies": sum(len(malformed_kids(h)) for h in hists),
             "attest_failures": sum(1 for h in hists for o in h if o[0] == "poll" and o[3] == "err"),
             "histories_with_any_leak": sum(1 for im in impl if any(im["obs"][s] for s in SINKS if s not in ALLOWED)),
+            "key_dir_preexisting": sum(1 for p in predirs if p), "decoy_canaries": sum(1 for c in canaries for k in c if k >= DECOY0),
         },
     })
     ctx.assumptions += [
